@@ -5,7 +5,12 @@ Real code (public entry points, over harness.fakecourier with no faults, real se
   kind 'interleaved' : orchestrate.run_pipeline_interleaved(pipeline, master_server, resources={stage: worker pool})
                        (a data-source stage in process -> an 'apply' stage on 1-3 remote workers fed through a
                        RemoteIteratorQueue over the master's queue -> the aggregate fused into it or as a third stage)
-  kind 'strict'      : TransformRunner.merge_states / ChainedRunner.merge_states(states, strict_states_cnt=n)
+  kind 'strict'      : TransformRunner.merge_states / ChainedRunner.merge_states(states, strict_states_cnt=n); variants
+                       'chained2' / 'chained3' = a chain with two / three AGGREGATING stages; `oneshot` = the states are
+                       handed over as a one-shot generator (what compute_result does), not as a list
+  interleaved + `ack`: RPC latency as an environment choice: the REPLY of the first `enqueue_from_iterator` kick-off
+                       (the worker is already pulling the stage input) is held back `ack` ms while the other workers
+                       drain the input and finish; `lat` = [[ms, k], ..] holds back the reply of every k-th other call
 Model: lean/MlModel/Model/Sched.lean (`IT` with the all-ok environment, `trMergeStates`, `chMergeStates`,
 `stageReturned`) + the queue LTS of C04; theorems lean/MlModel/Properties/C16.lean.
 
@@ -16,6 +21,7 @@ import collections
 import queue
 
 from harness import lib_sched as L
+from harness import lib_sched_ext as X
 from harness.core import err_kind
 
 PID = 'C16'
@@ -32,7 +38,10 @@ ASSUMPTIONS = ['row-wise pipelines (apply / chained apply / aggregate), aggregat
                'result does not depend on the order of the rows']
 RULE = ('sharded: workers 1-4 x shards 1-6 x n 0..9 x three pipelines (exhaustive over the small grid, then random); '
         'interleaved: 1-3 workers x n 1..12 x {aggregate fused into the remote stage, aggregate as its own stage, no '
-        'aggregate} x buffer sizes; strict count: 0-4 states x strict 0..5 for both runner variants. '
+        'aggregate} x buffer sizes, also with the reply of the first kick-off RPC held back (2-3 workers) and with '
+        'latency on random replies; strict count: 0-4 states x strict 0..5 for both runner variants and for chains with '
+        'two / three aggregating stages, states as list and as one-shot generator; sharded runs of pipelines with two / '
+        'three aggregating stages (p3, p4). '
         'non-trivial = more than one worker or shard and at least two output batches')
 
 TIMEOUT = 20.0
@@ -55,6 +64,14 @@ def gen_cases(ctx):
       ctx.count('shards', c['shards'])
     if 'mode' in c:
       ctx.count('mode', c['mode'])
+    if c.get('pipe'):
+      ctx.count('pipe', c['pipe'])
+    if c.get('ack'):
+      ctx.count('ack_latency_ms', c['ack'])
+    if c.get('lat'):
+      ctx.count('reply_latency', 'yes')
+    if c['kind'] == 'strict':
+      ctx.count('strict_variant', c['variant'] + ('/oneshot' if c.get('oneshot') else ''))
     yield c
 
 
@@ -70,7 +87,12 @@ def _gen_cases(ctx):
       yield dict(kind='sharded', workers=w, shards=s, n=n, pipe=('p0', 'p1', 'p2')[(w + s + n) % 3])
   for _ in range(150 if quick else 2000):
     yield dict(kind='sharded', workers=rng.randrange(1, 5), shards=rng.randrange(1, 7), n=rng.randrange(0, 13),
-               pipe=rng.choice(['p0', 'p1', 'p2']))
+               pipe=rng.choice(['p0', 'p1', 'p2', 'p3', 'p4']))
+  # chains in which two / three stages aggregate: every stage's states come from the same one-shot stream
+  for (w, s) in [(1, 1), (1, 2), (2, 2), (2, 3), (3, 4)]:
+    for n in (0, s, s + 3):
+      for pipe in ('p3', 'p4'):
+        yield dict(kind='sharded', workers=w, shards=s, n=n, pipe=pipe)
   # default num_shards (= number of workers)
   for w in (1, 2, 3):
     yield dict(kind='sharded', workers=w, shards=0, n=5, pipe='p0')
@@ -81,10 +103,24 @@ def _gen_cases(ctx):
   for _ in range(200 if quick else 3000):
     yield dict(kind='interleaved', workers=rng.randrange(1, 4), n=rng.randrange(1, 13),
                mode=rng.choice(['fused', 'staged', 'noagg']), buffer=rng.choice([0, 1, 2, 5]))
+  # RPC latency: the reply of the first kick-off is late while the other workers drain the input and finish
+  for w in (2, 3):
+    for n in ((6, 12) if quick else (3, 6, 9, 12, 20)):
+      for mode in ('staged', 'noagg', 'fused'):
+        for at in (1, 2):
+          yield dict(kind='interleaved', workers=w, n=n, mode=mode, buffer=(0, 2)[(w + n) % 2],
+                     ack=(150 if quick else 300), ack_at=at)
+  for _ in range(20 if quick else 1500):
+    yield dict(kind='interleaved', workers=rng.randrange(2, 4), n=rng.randrange(2, 13),
+               mode=rng.choice(['fused', 'staged', 'noagg']), buffer=rng.choice([0, 1, 2, 5]),
+               lat=[[rng.choice([1, 3, 8]), rng.randrange(2, 6)] for _ in range(rng.choice([1, 2]))])
   for k in range(0, 5):
     for strict in range(0, 6):
       for variant in ('transform', 'chained'):
         yield dict(kind='strict', states=k, strict=strict, variant=variant)
+      for variant in ('chained', 'chained2', 'chained3'):
+        yield dict(kind='strict', states=k, strict=strict, variant=variant, oneshot=True)
+      yield dict(kind='strict', states=k, strict=strict, variant='chained2')
 
 
 # ------------------------------------------------------------------------------------------ real code
@@ -139,6 +175,26 @@ def run_interleaved(case):
   cl = L.Cluster(case['workers'], [], master=True)
   out = []
   info = {}
+  lat = None
+  if case.get('ack') or case.get('lat'):
+    workers = set(cl.names)
+    state = dict(kick=0, other=0)
+
+    def choose(call):
+      if call.address not in workers:
+        return None
+      if X.is_kickoff(call):
+        state['kick'] += 1
+        if case.get('ack') and state['kick'] == case.get('ack_at', 1):
+          return case['ack'] / 1000.0       # this worker has been started and is pulling; its reply is late
+        return None
+      state['other'] += 1
+      for ms, k in case.get('lat') or ():
+        if state['other'] % k == 0:
+          return ms / 1000.0
+      return None
+
+    lat = X.ReplyLatency(choose)
   try:
     pipeline = interleaved_pipeline(case['n'], case['mode'])
 
@@ -159,8 +215,11 @@ def run_interleaved(case):
                 batches=sorted(int(b) for b in out if b is not None), nones=sum(1 for b in out if b is None),
                 results=[L.canon_agg(r.agg_result) if isinstance(r, ns.transform.AggregateResult) else repr(r)
                          for r in returned],
-                acquired=cl.acquired())
+                acquired=cl.acquired(), delayed=(len(lat.delayed) if lat is not None else 0),
+                kick_delayed=(sum(1 for _, m in lat.delayed if m == 'maybe_make') if lat is not None else 0))
   finally:
+    if lat is not None:
+      lat.close()
     cl.close()
 
 
@@ -168,25 +227,55 @@ def run_strict(case):
   ns = L.setup()
   T = ns.transform.TreeTransform
   t = T.new(name='a').aggregate(output_keys='sc', fn=ns.base.as_agg_fn(L.SumCount))
+  nstages = {'chained2': 2, 'chained3': 3}.get(case['variant'], 1)
+  for j in range(1, nstages):
+    # further AGGREGATING stages: stage j adds j*100 to every value before summing it
+    t = t.chain(T.new(name=f'a{j}').apply(fn=_ADD[j]).aggregate(output_keys=f'sc{j}', fn=ns.base.as_agg_fn(L.SumCount)))
   chained = t.make()
-  runner = chained if case['variant'] == 'chained' else list(chained.named_aggs.values())[0]
+  whole = case['variant'] != 'transform'
+  runner = chained if whole else list(chained.named_aggs.values())[0]
   states = []
   for i in range(case['states']):
     st = runner.create_state()
-    if case['variant'] == 'chained':
+    if whole:
       st = chained.update_state(st, 10 + i)
     else:
       st = runner.update_state(st, 10 + i)
     states.append(st)
+  oneshot = case.get('oneshot') or case['variant'] == 'transform'
   try:
-    merged = runner.merge_states(iter(states) if case['variant'] == 'transform' else states,
-                                 strict_states_cnt=case['strict'])
+    merged = runner.merge_states((s for s in states) if oneshot else states, strict_states_cnt=case['strict'])
   except Exception as e:  # pylint: disable=broad-except
-    return dict(outcome=err_kind(e), total=None)
+    return dict(outcome=err_kind(e), total=None, totals=None)
   if not merged:
-    return dict(outcome='returned', total=0)      # no state at all: the empty merge
+    return dict(outcome='returned', total=0, totals=[0] * nstages)      # no state at all: the empty merge
   res = runner.get_result(merged)
-  return dict(outcome='returned', total=int(list(res['sc'])[0]))
+  keys = ['sc'] + [f'sc{j}' for j in range(1, nstages)]
+  totals = [int(list(res[k])[0]) if k in res else None for k in keys]
+  return dict(outcome='returned', total=totals[0], totals=totals)
+
+
+def _add100(x):
+  return x + 100
+
+
+def _add200(x):
+  return x + 200
+
+
+_ADD = {1: _add100, 2: _add200}
+
+
+def stage_totals(case):
+  """What every aggregating stage of the 'strict' case has to report after merging ALL states: stage j sums the
+  values 10+i shifted by the stages before it."""
+  nstages = {'chained2': 2, 'chained3': 3}.get(case['variant'], 1)
+  k = case['states']
+  out, shift = [], 0
+  for j in range(nstages):
+    shift += 100 * j
+    out.append(sum(10 + i + shift for i in range(k)))
+  return out
 
 
 # ------------------------------------------------------------------------------------------ oracle
@@ -199,8 +288,11 @@ def oracle(case, obs):
       return None if obs['outcome'] == 'ValueError' else f'{k} states, strict count {n}: expected ValueError, got {obs}'
     if obs['outcome'] != 'returned':
       return f'{k} states, strict count {n}: unexpected {obs["outcome"]}'
-    want = sum(10 + i for i in range(k))
-    return None if obs['total'] == want else f'merge of {k} states = {obs["total"]}, expected {want}'
+    want = stage_totals(case)
+    if k == 0:
+      want = [0] * len(want)
+    return None if obs['totals'] == want else \
+        f'merge of {k} states: per aggregating stage {obs["totals"]}, expected {want} (every stage merges ALL states)'
   if obs['acquired']:
     return f"workers still acquired afterwards: {obs['acquired']}"
   if obs['outcome'] != 'returned':
@@ -238,6 +330,8 @@ def oracle(case, obs):
 def model_requests_obs(case, obs):
   kind = case['kind']
   if kind == 'strict':
+    if case['variant'] in ('chained2', 'chained3') or case.get('oneshot'):
+      return []
     return [dict(model='sched', op='merge', states=[10 + i for i in range(case['states'])], strict=case['strict'])]
   if kind == 'sharded':
     nb = obs['nb']
@@ -280,7 +374,40 @@ def compare(obs, mobs):
   return None
 
 
+_ARMS = collections.Counter()
+REQUIRED_ARMS = ['interleaved:kickoff-reply-late(2+ workers)', 'interleaved:reply-latency', 'sharded:two-aggregating-stages',
+                 'sharded:three-aggregating-stages', 'strict:multi-stage-oneshot-merged', 'strict:multi-stage-oneshot-rejected']
+
+
+def _cover(case, obs):
+  kind = case['kind']
+  if oracle(case, obs) is not None:
+    _ARMS['(oracle failed)'] += 1      # the verdict is a VIOLATION; coverage does not decide this run
+  if kind == 'interleaved' and obs.get('kick_delayed') and case.get('ack') and case['workers'] >= 2:
+    _ARMS['interleaved:kickoff-reply-late(2+ workers)'] += 1
+  if kind == 'interleaved' and case.get('lat') and obs.get('delayed'):
+    _ARMS['interleaved:reply-latency'] += 1
+  if kind == 'sharded' and obs['outcome'] == 'returned' and (case['shards'] or case['workers']) >= 2 and case['n'] >= 2:
+    if case['pipe'] == 'p3':
+      _ARMS['sharded:two-aggregating-stages'] += 1
+    if case['pipe'] == 'p4':
+      _ARMS['sharded:three-aggregating-stages'] += 1
+  if kind == 'strict' and case.get('oneshot') and case['variant'] in ('chained2', 'chained3') and case['states'] >= 2:
+    _ARMS['strict:multi-stage-oneshot-' + ('merged' if obs['outcome'] == 'returned' else 'rejected')] += 1
+
+
+def extra(ctx):
+  """Coverage promise (else: infrastructure failure, not a verdict)."""
+  from harness.core import InfraError
+  for k, v in sorted(_ARMS.items()):
+    ctx.count('arm', k, v)
+  missing = [a for a in REQUIRED_ARMS if not _ARMS.get(a)]
+  if missing and not _ARMS.get('(oracle failed)'):
+    raise InfraError(f'C16 generator missed promised arms: {missing}')
+
+
 def nontrivial(case, obs):
+  _cover(case, obs)
   if case['kind'] == 'strict':
     return case['states'] >= 2 and case['strict'] >= 1
   return (case['workers'] > 1 or case.get('shards', 1) > 1) and case['n'] >= 2
